@@ -269,6 +269,18 @@ def gen_table(rng):
                 continue
             while True:
                 k = rng.random()
+                near = [u for u in used if isinstance(u, bytes) and len(u) >= 1]
+                if near and rng.random() < 0.25:
+                    # a name that is a DIFFERENT byte string but close to a used one: same first four bytes with another tail,
+                    # or the same text with other trailing padding (blank, NUL, none)
+                    u = rng.choice(near)
+                    if rng.random() < 0.5:
+                        v = (u + b'    ')[:4] + bytes(rng.choice(b'ABCXYZ_019') for _ in range(rng.randint(1, 8)))
+                    else:
+                        v = u.rstrip(b' \x00') + rng.choice((b'', b' ', b'\x00', b'  ', b' \x00'))
+                    if v and len(v) <= 255 and all(clearly_distinct(v, w) for w in used):
+                        break
+                    continue
                 if (f3 and cols[0] == b'MNEM') or k < 0.7:
                     v = gen_bytes(rng) if rng.random() < 0.5 else gen_mnem(rng)[:rng.randint(1, 4)]
                 elif k < 0.85:
@@ -290,6 +302,11 @@ def gen_table(rng):
                 if c and ragged and rng.random() < 0.3:
                     continue
                 v = nm if c == 0 else gen_cell_value(rng, bytes_only=(f3 and m == b'MNEM'))
+                if c and m == b'MNEM' and rows and rng.random() < 0.3:
+                    # the same MNEM cell value in rows with different names: the rows stay different rows
+                    prev = [x['value'] for r_ in rows for x in r_ if x['col'] == b'MNEM']
+                    if prev:
+                        v = rng.choice(prev)
                 u = gen_mnem(rng) if rng.random() < 0.4 else None
                 cat = rng.choice((0, rng.randint(0, 255))) if blocks_mode else 0
                 form = rng.choice(('plain', 'tuple', 'list')) if u is None else rng.choice(('tuple', 'list'))
